@@ -5,7 +5,7 @@ from .common import last
 
 ID = "C03"
 BUDGET = {"quick": 3000, "thorough": 200000}
-RULE = ("strings over {letters, { } \\ \" ' space tab CR LF non-ASCII} (no backslash immediately before '{{'), quoted by "
+RULE = ("strings over {letters, { } \\ \" ' space tab CR LF non-ASCII incl. NBSP, U+3000, VT, FF} (no backslash immediately before '{{'), quoted by "
         "'{{' -> '\\{{'; used alone (render(quote s) must equal s for any data), between pairs of tags of every kind "
         "(value tags, comments), and as the body of a {{{{raw}}}} block; thorough adds every string of length ≤ 5 over a "
         "9-symbol alphabet; text around comments and block tags (where only the standalone-line rule may remove whitespace next to the tag: every "
@@ -13,7 +13,7 @@ RULE = ("strings over {letters, { } \\ \" ' space tab CR LF non-ASCII} (no backs
         "oracle = the theorem's closed form, exact); oracle = the string itself; non-trivial = contains a brace, backslash or whitespace; distinct by string")
 DEFINITE_FLOOR = 0.9
 ASSUMPTIONS = ["whitespace-only text next to a tag that C11's standalone rule names is placed only where that rule cannot fire (value tags)"]
-ALPHA = list("abXY{}{}\\\"' \t\r\n") + ["é", "→", "😀", "{{", "}}", "{{{", "\\\\"]
+ALPHA = list("abXY{}{}\\\"' \t\r\n") + ["é", "→", "😀", "{{", "}}", "{{{", "\\\\", "\u00a0", "\u3000", "\x0b", "\x0c"]
 SMALL = ["a", "{", "}", "\\", " ", "\n", "\"", "{{", "é"]
 
 
@@ -158,7 +158,9 @@ def _no_open(t):
     return t
 
 
-LINE_ENDS = ["", "\n", "\r\n", "\n  ", "x\n\t", "\r", "\n\n", " ", "\t ", "\n \t"]
+LINE_ENDS = ["", "\n", "\r\n", "\n  ", "x\n\t", "\r", "\n\n", " ", "\t ", "\n \t",
+             # whitespace that is NOT a space or a tab: a line holding it is not blank, the standalone rule leaves it alone
+             "\n\u3000", "\n\u00a0 ", "\n \x0c", "\u2003", "x\n\x0b\t"]
 
 
 def thm_left(r):
@@ -173,7 +175,8 @@ def thm_left(r):
 def thm_right(r):
     t = _no_open(rand_text(r, r.range(0, 8)))
     if r.chance(0.6):
-        t = r.pick(["", "\r", "\r\n", "\n", " \r", "\t\n", "\r\r\n", "  \n", "  ", "\n\n", " \n x"]) + r.pick(["", t])
+        t = r.pick(["", "\r", "\r\n", "\n", " \r", "\t\n", "\r\r\n", "  \n", "  ", "\n\n", " \n x",
+                    "\u00a0\n", " \u3000\r\n", "\x0c\n", "\u2003"]) + r.pick(["", t])
     return _no_open(t)
 
 
